@@ -70,4 +70,51 @@ META["C15"] = {
     "p_timeout": 400,
 }
 
+META["C02"] = {
+    "level": "other",
+    "level_text": "Mixed. Deductively proved (all inputs): the term-building helpers the fusion "
+    "rules are made of (function_call, lambda_build, lambda_call, lambda_body_replace, lambda_unwrap, "
+    "lambda_body, lambda_test, lambda_is_identity, lambda_is_true, is_call_of, unpack_Call) meet "
+    "their structural contracts. NOT proved: the semantic clause sem(visit(q)) == sem(q) and the "
+    "binder discipline of simplify_chained_calls itself (the binder calculus of DESIGN §4 C02 was "
+    "not discharged); that clause is checked bounded on the real simplifier: ~700 closed queries "
+    "(quick) over three binder-naming schemes x 4 data sets against the reference semantics.",
+    "level_note": "The property-carrying contract is bounded only. Trusted for the proved helpers: "
+    "z3, own VC generator, grammar-derived node model. The reference semantics `sem` (bcc/sem.py) "
+    "is the oracle of the bounded part.",
+    "technique": "contracts on the real functions: helper contracts discharged deductively (z3), the semantic contract of simplify_chained_calls checked bounded against a reference semantics (labelled stand-in)",
+    "p_keys": True,
+    "explanation": "Contract-based verification of func_adl/ast/function_simplifier.py: helper "
+    "contracts proved by engine P; the semantic contract of visit() is a bounded contract check.",
+    "assumptions": ["bounded: queries of <= 3 chained operators, lambda bodies to depth 1 with nested "
+                    "operators, 4 data sets"],
+}
+META["C14"] = {
+    "level": "other",
+    "level_text": "Shape contract NF(visit(q)) (no package, no projection out of one, no called "
+    "lambda left) checked bounded on the real simplifier over ~260 type-correct packaging chains "
+    "(tuple/list/dict, nested, three binder schemes); the helpers it is built from "
+    "(lambda_is_identity, is_call_of, function_call, …) are proved deductively. The inductive "
+    "NF proof of DESIGN §4 C14 was not discharged.",
+    "level_note": "The property-carrying contract is bounded only (stated bound in evidence).",
+    "technique": "contracts on the real functions: helper contracts discharged deductively (z3); NF shape contract of simplify_chained_calls checked bounded (labelled stand-in)",
+    "p_keys": True,
+    "explanation": "Helper contracts proved; NF shape contract bounded.",
+    "assumptions": ["chains are in function form (the simplifier only fuses function-form calls)"],
+}
+META["C18"] = {
+    "level": "other",
+    "level_text": "Totality / well-formed-output contract of simplify_chained_calls checked bounded "
+    "on the real code: ~1200 queries incl. every literal x selector combination (constant, "
+    "out-of-range, negative, variable, slice, str, bool, None, float, absent key/attribute) in four "
+    "positions; result must unparse and compile; only FuncADLIndexError for a constant index >= "
+    "len; 5 s per input as the bounded termination check. Helper functions proved deductively.",
+    "level_note": "Termination is NOT proved (non-structural recursion, no variant known): bounded "
+    "observation only. Safety obligations of visit_Subscript_* are not yet under engine P.",
+    "technique": "contracts on the real functions: helper contracts discharged deductively (z3); totality/WF contract checked bounded (labelled stand-in)",
+    "p_keys": True,
+    "explanation": "Helper contracts proved; totality and WF(result) bounded.",
+    "assumptions": ["termination observed within 5 s per input only"],
+}
+
 NOT_APPLICABLE = {}
